@@ -20,7 +20,8 @@ static const OpInfo OPS[O_NOPS] = {
   [O_POP]    = { "pop", 1 },      /* c */
   [O_PUSH_AT]= { "push_at", 3 },  /* c v i */
   [O_POP_AT] = { "pop_at", 2 },   /* c i */
-  [O_SET]    = { "set", 3 },      /* c i|k v */
+  [O_SET]    = { "set", 4 },      /* c i|k v flags (maps: 1 = the value argument is a value stored in the same map, 2 = update every
+                                     binding through the keys the iteration hands out) */
   [O_GET]    = { "get", 2 },      /* c i|k */
   [O_REM]    = { "rem", 2 },      /* c v|k */
   [O_MEM]    = { "mem", 2 },      /* c v|k */
@@ -66,6 +67,7 @@ typedef struct {
 static Cont C[MAXC];
 static volatile var* g_roots;    /* stack slots that keep managed containers reachable */
 static int g_focus;
+static int64_t g_kf_enable;      /* known-finding triggers the plan asks for (default none) */
 static int g_transcript;
 static int g_opidx;
 
@@ -842,6 +844,23 @@ static void do_set(const Op* o) {
     int mi = map_find(c, kv);
     if (mi < 0 && c->n >= MAXN - 2) return;
     if (mi >= 0 && c->kind == K_TABLE && table_key_displaced(c, kv)) stat_add("table.update_displaced", 1);
+    if ((o->a[3] & 2) && c->n > 0) {
+      /* arguments that point into the container itself: the keys handed out by its own iteration */
+      int cnt = 0;
+      foreach (k in c->obj) { set(c->obj, k, MKVAL(c->vt, vv)); if (++cnt > c->n + 2) break; }
+      for (int i = 0; i < c->n; i++) c->v[i] = vv;
+      stat_add("map.update_through_iteration", 1); g_lastop = "set-all-through-iteration";
+      check_cont(c, 0);
+      return;
+    }
+    if ((o->a[3] & 1) && c->n > 0) {
+      /* ... and a value that is stored in the same map (the insertion may rehash while the argument is still being read) */
+      int j = (int)(((o->a[2] % c->n) + c->n) % c->n);
+      vv = c->v[j];
+      var inside = get(c->obj, MKVAL(c->kt, c->k[j]));
+      set(c->obj, MKVAL(c->kt, kv), inside);
+      stat_add("map.value_argument_from_same_map", 1);
+    } else
     set(c->obj, MKVAL(c->kt, kv), MKVAL(c->vt, vv));
     if (mi >= 0) { c->v[mi] = vv; stat_add("map.update", 1); g_lastop = "set-existing"; }
     else { c->k[c->n] = kv; c->v[c->n] = vv; c->n++; g_lastop = "set-fresh"; }
@@ -1181,6 +1200,14 @@ static void do_swap(const Op* o) {
 static void do_sassign(const Op* o) {
   Cont* c = pick(o->a[0]); if (!c || c->kind != K_STRING) return;
   progress(g_opidx, "C16", "s_assign");
+  if (((o->a[2] % 9) + 9) % 9 == 0) {
+    /* assigned its own characters: the String itself, or a stack String that looks at its buffer */
+    if (o->a[2] & 1) assign(c->obj, c->obj); else assign(c->obj, $S(c_str(c->obj)));
+    g_lastop = "assign-self";
+    stat_add("str.assigned_itself", 1);
+    check_cont(c, 1);
+    return;
+  }
   char b[SBUF]; const char* x = sop(c, o->a[1], o->a[2], b, sizeof b);
   char keep[SBUF]; snprintf(keep, sizeof keep, "%s", x);
   assign(c->obj, $S(keep));
@@ -1240,7 +1267,8 @@ static void do_sprint(const Op* o) {
     case 0: snprintf(out, sizeof out, "%li", (long)x); r = print_to(c->obj, pos, "%li", $I(x)); break;
     case 1: snprintf(out, sizeof out, "<%s>", strval(x)); r = print_to(c->obj, pos, "<%s>", $S((char*)strval(x))); break;
     case 2: snprintf(out, sizeof out, "%li", (long)x); r = print_to(c->obj, pos, "%$", $I(x)); break;
-    case 3: snprintf(out, sizeof out, "lit%%"); r = print_to(c->obj, pos, "lit%%"); break;
+    case 3: if (x & 1) { snprintf(out, sizeof out, "lit%%"); r = print_to(c->obj, pos, "lit%%"); }
+            else { snprintf(out, sizeof out, "%li%% of %li%%%%!", (long)x, (long)(x / 2)); r = print_to(c->obj, pos, "%li%% of %li%%%%!", $I(x), $I(x / 2)); } break;
     case 4: snprintf(out, sizeof out, "%5.2f|", fltval(normv(ET_FLT, x))); r = print_to(c->obj, pos, "%5.2f|", $F(fltval(normv(ET_FLT, x)))); break;
     case 5: snprintf(out, sizeof out, "%li,%s", (long)x, strval(x + 1)); r = print_to(c->obj, pos, "%li,%s", $I(x), $S((char*)strval(x + 1))); break;
     case 6: { /* one long %s piece: lengths around 16/32/64/128/256 and in between */
@@ -1296,8 +1324,8 @@ static var P20 = Cello(P20);
 
 static void do_swapv(const Op* o) {
   progress(g_opidx, "C10", "swapv");
-  int t = (int)(((o->a[0] % 7) + 7) % 7);
-  var T = t == 0 ? P12 : t == 1 ? P3 : t == 2 ? P20 : t == 3 ? Int : t == 4 ? Float : t == 5 ? String : P76;
+  int t = (int)(((o->a[0] % 8) + 8) % 8);
+  var T = t == 0 ? P12 : t == 1 ? P3 : t == 2 ? P20 : t == 3 ? Int : t == 4 ? Float : t == 5 ? String : t == 6 ? P76 : Ref;
   size_t n = t == 0 ? sizeof(struct P12) : t == 1 ? sizeof(struct P3) : t == 2 ? sizeof(struct P20) : t == 6 ? sizeof(struct P76) : 8;
   var x, y;
   char cls[96];
@@ -1306,6 +1334,13 @@ static void do_swapv(const Op* o) {
     x = new_raw_with(T, tuple()); y = new_raw_with(T, tuple());
     unsigned char* px = x; unsigned char* py = y;
     for (size_t i = 0; i < n; i++) { px[i] = (unsigned char)(o->a[1] * 31 + (int64_t)i * 7 + 1); py[i] = (unsigned char)(o->a[2] * 17 + (int64_t)i * 13 + 2); }
+  } else if (t == 7) {
+    /* reference values: the referents are static objects; looked at through their Pointer instance first, as programs do */
+    static var* RT_[] = { &Int, &Float, &String, &Array, &Table, &Tree };
+    x = new_raw(Ref, *RT_[(int)(((o->a[1] % 6) + 6) % 6)]); y = new_raw(Ref, *RT_[(int)((((o->a[2] + 1) % 6) + 6) % 6)]);
+    if (deref(x) isnt *RT_[(int)(((o->a[1] % 6) + 6) % 6)]) viol("C10", "C10:ref-deref", "deref of a fresh Ref gives another object");
+    (void)deref(y);
+    stat_add("c10.ref_values", 1);
   } else if (t == 3) { x = new_raw(Int, $I(o->a[1])); y = new_raw(Int, $I(o->a[2] + 1)); }
   else if (t == 4) { x = new_raw(Float, $F(fltval(seqval(ET_FLT, o->a[1])))); y = new_raw(Float, $F((o->a[2] & 1) ? fltval(seqval(ET_FLT, o->a[2] / 2)) : fltval(normv(ET_FLT, o->a[2])) + 0.5)); }
   else if ((o->a[1] & 1) == 0) { x = new_raw(String, $S((char*)strval(o->a[1]))); y = new_raw(String, $S((char*)strval(o->a[2] + 1))); }
@@ -1445,6 +1480,36 @@ static void do_bad(const Op* o) {
   var obj = c->obj;
   long tl = tok_live();
   progress(g_opidx, "C12", "bad");
+  int refuse_seq = is_seq(c->kind) && c->kind != K_TUPLE && c->kt == ET_TOK;
+  int refuse_map = is_map(c->kind) && (c->vt == ET_TOK || c->kt == ET_TOK);
+  if ((refuse_seq || refuse_map) && ((x % 4) + 4) % 4 == 0) {
+    /* the element type's own Assign refuses the value half-way through the operation (it raises before it changes anything):
+     * the container must be as it was */
+    int64_t w = ((x / 4 % 3) + 3) % 3;
+    acc = X_VALUE;
+    if (refuse_seq) {
+      int i = n ? (int)((((x / 12) % n) + n) % n) : 0;
+      if (w == 0 || n == 0) { what = "push-refused-value"; try { push(obj, TOK_T(TOK_REFUSED)); } catch (e) { ex = e; } }
+      else if (w == 1) { what = "push_at-refused-value"; try { push_at(obj, TOK_T(TOK_REFUSED), $I(i)); } catch (e) { ex = e; } }
+      else { what = "set-refused-value"; try { set(obj, $I(i), TOK_T(TOK_REFUSED)); } catch (e) { ex = e; } }
+    } else {
+      int64_t akv = 0; int found = 0;
+      for (int t = 0; t < 200 && !found; t++) { akv = keyval(c->kind, c->kt, x + t); if (map_find(c, akv) < 0) found = 1; }
+      /* known finding (known_findings.jsonl): Table_Set_Move (always) and Tree_Set (fresh key) construct the key copy before
+       * the value copy; when the value's Assign raises, the key copy is never finalised - one live element more than the
+       * containers hold.  Those cases are injected only when the plan asks for them (env kf.enable bit 1, set by the probe). */
+      int leak_ok = (int)(g_kf_enable & 1);
+      int can_val_fresh = c->vt == ET_TOK && found && leak_ok;
+      int can_val_exist = c->vt == ET_TOK && n && (c->kind == K_TREE || leak_ok);
+      int can_key = c->kt == ET_TOK;
+      if (can_val_fresh && (w == 0 || !can_val_exist)) { what = "set-fresh-key-refused-value"; try { set(obj, MKVAL(c->kt, akv), TOK_T(TOK_REFUSED)); } catch (e) { ex = e; } }
+      else if (can_val_exist && (w <= 1 || !can_key)) { what = "set-existing-key-refused-value"; try { set(obj, MKVAL(c->kt, c->k[(((x / 12) % n) + n) % n]), TOK_T(TOK_REFUSED)); } catch (e) { ex = e; } }
+      else if (can_key) { what = "set-refused-key"; try { set(obj, TOK_T(TOK_REFUSED), MKVAL(c->vt, seqval(c->vt, x))); } catch (e) { ex = e; } }
+      else return;
+    }
+    stat_add("bad.refused-by-element-assign", 1);
+    goto bad_tail;
+  }
   if (kind >= 28 && (g_focus == 12 || g_focus == 0)) {
     /* value-type receivers that are not containers of the plan: a Range view and the NULL object */
     if (kind == 28 || kind == 29) {
@@ -1563,6 +1628,7 @@ static void do_bad(const Op* o) {
         break; }
     }
   }
+bad_tail:
   g_lastop = what;
   stat_add("bad.injected", 1);
   { char k[48]; snprintf(k, sizeof k, "bad.%s", what); stat_add(k, 1); }
@@ -1636,6 +1702,7 @@ static void containers_execute(const Plan* p) {
   g_focus = (int)plan_env(p, "focus", 0);
   g_transcript = (int)plan_env(p, "transcript", 0);
   g_avoid_kf = (int)plan_env(p, "avoid_kf", 0);
+  g_kf_enable = plan_env(p, "kf.enable", 0);
   memset(C, 0, sizeof C);
   for (int i = 0; i < p->nops; i++) {
     const Op* o = &p->ops[i];
@@ -1758,7 +1825,7 @@ static void containers_generate(Plan* p, Rng* r) {
       continue; }
     if (d < (uint32_t)(focus == 10 ? 22 : 13)) { plan_add(p, O_TWIN, 0, fault, ca, rng_below(r, 4), 0, 0, 0, 0); continue; }
     if (d < (uint32_t)(focus == 10 ? 24 : 15)) { plan_add(p, O_CHECK, 0, fault, ca, 0, 0, 0, 0, 0); continue; }
-    if ((focus == 10 || focus == 0) && d < 30) { int64_t s3 = (int64_t)rng_below(r, 1000000), s2 = (int64_t)rng_below(r, 1000000), s1 = rng_below(r, 7); plan_add(p, O_SWAPV, 0, 0, s1, s2, s3, 0, 0, 0); continue; }
+    if ((focus == 10 || focus == 0) && d < 30) { int64_t s3 = (int64_t)rng_below(r, 1000000), s2 = (int64_t)rng_below(r, 1000000), s1 = rng_below(r, 8); plan_add(p, O_SWAPV, 0, 0, s1, s2, s3, 0, 0, 0); continue; }
     d = rng_below(r, 100);
     if (g->kind == K_STRING) {
       int64_t m = rng_below(r, 7), x = (int64_t)rng_below(r, 100000);
@@ -1774,23 +1841,24 @@ static void containers_generate(Plan* p, Rng* r) {
       if (g->vt == ET_STR && rng_chance(r, 1, 20)) { plan_add(p, O_ELEMCAT, 0, fault, ca, (int64_t)rng_below(r, 100000), 0, 0, 0, 0); continue; }
       /* modes: 0 fill with consecutive pool keys (long collision runs / ascending), 1 drain, 2 mix, 3 descending */
       int64_t kidx = mode == 0 ? seqctr++ : mode == 3 ? seqctr-- : (int64_t)rng_below(r, 96);
+      int64_t sfl = rng_chance(r, 1, 10) ? 1 : 0; if (!sfl && rng_chance(r, 1, 40)) sfl = 2;   /* arguments that point into the map itself */
       if (mode == 0 || mode == 3) {
-        if (d < 70) { plan_add(p, O_SET, 0, fault, ca, kidx, rv, 0, 0, 0); g->approx_n++; }
-        else if (d < 80) plan_add(p, O_SET, 0, fault, ca, (int64_t)rng_below(r, 96), rv, 0, 0, 0);
+        if (d < 70) { plan_add(p, O_SET, 0, fault, ca, kidx, rv, sfl, 0, 0); g->approx_n++; }
+        else if (d < 80) plan_add(p, O_SET, 0, fault, ca, (int64_t)rng_below(r, 96), rv, sfl, 0, 0);
         else if (d < 90) plan_add(p, O_REM, 0, fault, ca, (int64_t)rng_below(r, 400), 0, 0, 0, 0);
         else plan_add(p, O_GET, 0, fault, ca, (int64_t)rng_below(r, 96), 0, 0, 0, 0);
       } else if (mode == 1) {
         if (d < 75) { plan_add(p, O_REM, 0, fault, ca, 2 * (int64_t)rng_below(r, 400) + 1, 0, 0, 0, 0); if (g->approx_n) g->approx_n--; }
-        else if (d < 85) plan_add(p, O_SET, 0, fault, ca, kidx, rv, 0, 0, 0);
+        else if (d < 85) plan_add(p, O_SET, 0, fault, ca, kidx, rv, sfl, 0, 0);
         else if (d < 92) plan_add(p, O_MEM, 0, fault, ca, kidx, 0, 0, 0, 0);
         else plan_add(p, O_RESIZE, 0, fault, ca, (int64_t)rng_below(r, 300), 0, 0, 0, 0);
       } else {
-        if (d < 40) plan_add(p, O_SET, 0, fault, ca, kidx, rv, 0, 0, 0);
+        if (d < 40) plan_add(p, O_SET, 0, fault, ca, kidx, rv, sfl, 0, 0);
         else if (d < 65) plan_add(p, O_REM, 0, fault, ca, (int64_t)rng_below(r, 400), 0, 0, 0, 0);
         else if (d < 78) plan_add(p, O_GET, 0, fault, ca, kidx, 0, 0, 0, 0);
         else if (d < 88) plan_add(p, O_MEM, 0, fault, ca, kidx, 0, 0, 0, 0);
         else if (d < 96) plan_add(p, O_RESIZE, 0, fault, ca, (int64_t)rng_below(r, 300), 0, 0, 0, 0);
-        else plan_add(p, O_SET, 0, fault, ca, kidx, rv, 0, 0, 0);
+        else plan_add(p, O_SET, 0, fault, ca, kidx, rv, sfl, 0, 0);
       }
       continue;
     }
